@@ -641,7 +641,9 @@ pub fn run_life(case_in: &J, out: &mut Out, ic_build: bool) {
         let l3 = load_file(&rendered.text);
         let tag = match (&l3, &loaded) {
             (Loaded::Ok(a), Loaded::Ok(b)) => {
-                if serde_yaml::to_string(a).ok() == serde_yaml::to_string(b).ok() { "ok" } else { "differs" }
+                // canonical comparison: identifiers live in a hash map, two loads serialise them in different orders
+                let fp = |r: &Rule| serde_yaml::to_value(r).map_err(|e| e.to_string()).and_then(|v| value_fingerprint(&v));
+                if fp(a) == fp(b) { "ok" } else { "differs" }
             }
             _ => l3.tag(),
         };
